@@ -156,6 +156,11 @@ fn run_case(c: &Case, out: &mut dyn Write) {
         }
     }
     let edges = krill::verif::lockdep::take_edges();
+    // exclusive locks (key-value scope / namespace write locks, update lock, rsync lock, history mutex) that a thread got
+    // while another one was still inside
+    let mut lock_overlaps = krill::verif::lockdep::take_overlaps();
+    lock_overlaps.sort();
+    lock_overlaps.dedup();
     // RRDP files on disk vs the publication server's state, once everything is idle
     // staged changes must have an RRDP update task waiting for them (no lost wake-up)
     let rrdp_task_present = s.task_present("update_rrdp");
@@ -223,7 +228,7 @@ fn run_case(c: &Case, out: &mut dyn Write) {
         "rets_same": rets_same, "ret_diffs": ret_diffs, "state_same": same, "diff": diff, "detail": detail,
         "content_serial": content_serial, "content_serial_after_idle_update": content_serial_after,
         "staged_pending": staged_pending, "disk_serial": disk_serial, "written_serials": written_serials,
-        "rrdp_task_present": rrdp_task_present,
+        "rrdp_task_present": rrdp_task_present, "lock_overlaps": lock_overlaps,
         "rp_problems": conc_view.get("rp").and_then(|r| r.get("problems")).cloned().unwrap_or(Value::Null),
     });
     writeln!(out, "{line} => {obs}").unwrap();
